@@ -42,7 +42,11 @@ type Step struct {
 
 // Case describes the step in a replayable form.
 func (s *Step) Case() map[string]any {
-	return map[string]any{"initial": s.Init.Name, "history": opsStrings(s.Hist), "op": s.Op.String(), "history_ops": s.Hist, "op_spec": s.Op, "probe": s.Probe}
+	c := map[string]any{"initial": s.Init.Name, "history": opsStrings(s.Hist), "op": s.Op.String(), "history_ops": s.Hist, "op_spec": s.Op, "probe": s.Probe}
+	if s.E != nil && s.E.Phase != "" {
+		c["phase"] = s.E.Phase
+	}
+	return c
 }
 
 func opsStrings(ops []Op) []string {
@@ -72,6 +76,7 @@ type E1 struct {
 	Rep      *Reporter
 	Workers  int
 	Deadline time.Time // watchdog: stop expanding after this (exhaustive:false)
+	Phase    string    // name of the extra phase this search belongs to (recorded in violation cases for replay)
 	NoPrune  bool      // extend states reached through violating steps too (for read-only oracles, whose violations have no consequences)
 
 	// statistics
@@ -332,6 +337,12 @@ func (e *E1) runTask(cc cache.Client, n *node, op Op, probe bool) (res taskResul
 		return
 	}
 	defer w.Close()
+	if probe && w.Opts.ResyncOnProbe {
+		if err := w.ResyncRunning(); err != nil {
+			res.err = fmt.Errorf("resync before %s: %w", op, err)
+			return
+		}
+	}
 	pre, err := w.Snapshot()
 	if err != nil {
 		res.err = fmt.Errorf("snapshot before %s after %v: %w", op, opsStrings(n.hist), err)
